@@ -1,4 +1,51 @@
+/-
+  Props.C09.GlueTieDigest — the translator tie for the STATEFUL GLUE of the legacy `Digest` objects and of the hash contexts.
+
+  `Extracted/GlueDigest.lean` is regenerated on every run by tools/ktx_glue_digest.py (specs: tools/kernels/glue_digest.py) from
+      src/digest.rs             `Digest::output_bytes`, `input_str`, `result_str` (provided methods, for EVERY implementation)
+      src/sha1.rs, sha2.rs, sha3.rs, ripemd160.rs   the 16 wrappers `{ ctx, computed }` — the `digest!` macros are expanded, one
+                                Lean def per invocation and function: new / reset / input / result / output_bits / block_size
+      src/blake2b.rs, blake2s.rs   `Blake2b` / `Blake2s`: new, new_keyed, update, finalize, reset, reset_with_key, the static
+                                one-shot, `impl Digest`, `impl Mac`
+      src/hashing/sha1.rs       digest_block, digest_blocks, mk_result, Context::{new, update_mut, update, reset, finalize,
+                                finalize_reset}, Sha1::new
+      src/hashing/ripemd160.rs  process_msg_blocks, Context::{new, update_mut, update, reset, finalize_reset, finalize},
+                                Ripemd160::new
+      src/hashing/sha2/mod.rs   the six `digest!` invocations: $ctxname::{new, update_mut, update, reset, finalize,
+                                finalize_reset}, $name::new (above the model's Engine256 / Engine512)
+      src/hashing/mod.rs        the 20 one-shot functions
+  — a statement-by-statement translation.  The theorems below, re-checked by the kernel on every build, say that the hand
+  models of Impl/Digest.lean, Impl/Sha1.lean, Impl/Ripemd160.lean, Impl/Sha2.lean (about which C01, C02, C08, C09, C10, C20
+  are proved) compute exactly what the source says NOW, for ALL states (satisfying the stated invariant) and ALL inputs of every
+  length.  A semantic change of the glue (a flag, an assertion, a reset that forgets a field, a size taken from the wrong
+  constant, a shift of the length field, a chunk size, a key that is not retained) changes the generated definition and breaks
+  one of these proofs even when no sampled input reaches it.
+
+  How each function is tied
+    * `rfl` where the translator emits the model's shape (constructors, `reset`, the reported sizes — the sizes are evaluated
+      from the `impl` blocks of src/hashing by the translator and compared with the re-extracted table of Impl/Digest.lean);
+    * by case analysis on the results of the callees where source and model are the same tree of `match`es;
+    * by induction for the two `for b in x.chunks(64)` loops and the hex loop of `result_str`;
+    * through an ABSTRACTION for the legacy BLAKE2 objects: the Rust struct keeps `key: [u8; N]` and `keylen`, the model keeps
+      `key[..keylen]` — `B2b.abs` / `B2s.abs`, under the invariant `B2b.Inv` / `B2s.Inv` (`key.length = N ∧ keylen ≤ N`,
+      established by the constructors and preserved by every method: the `*_src_inv` theorems);
+    * out-parameters: `result(&mut out)`-style functions take and return the whole slice, the models take its LENGTH and return
+      the new contents (they overwrite all of it or panic); `mk_result` writes all of `rs: &mut [u8; 20]` (hypothesis
+      `rs.length = 20`, a typing fact; its two callers pass `[0; 20]`);
+    * `result_str`: the `String` is its UTF-8 bytes; `hexAscii` is proved to be the hex codec of Util/Bytes.lean.
+  What the generated functions CALL but this file does not tie (the model's functions, tied by the other translators):
+  `FixedBuffer` (Props/C01/GlueTieMd.lean), Engine256/512 (ibid.), the SHA-3 / Keccak contexts and the BLAKE2 contexts
+  (Props/C02/GlueTieSponge.lean), the compression cores `digest_block_u32` / `process_msg_block` (Props/C01/KernelTie*.lean),
+  `MacResult::new_from_owned` (Props/C05/GlueTieMac.lean).  Byte counters: `processed_bytes += len` is the wrapping operation
+  of the models (release semantics; the overflow-checked build is C20's business, Props/C20/HashLen.lean).
+  The last section composes the ties of the one-shot functions with the C01 theorems: source = standard.
+-/
 import CxVerif.Proofs.GlueDigest
+import CxVerif.Props.C01.Sha1
+import CxVerif.Props.C01.Ripemd160
+import CxVerif.Props.C01.Sha2
+import CxVerif.Props.C01.Sha3
+import CxVerif.Props.C01.Blake2
 namespace Cx.Props.C09.GlueTieDigest
 open Cx Cx.Impl.Digest Cx.Extracted.GlueDigest Cx.Proofs.GlueDigest
 
@@ -334,4 +381,406 @@ theorem Ripemd160.output_bits_src_eq_model (self : Legacy _) :
 theorem Ripemd160.block_size_src_eq_model (self : Legacy _) :
     Legacy.Ripemd160.block_size_src self = Impl.Digest.Legacy.block_size ripemd160Ctx self := by
   unfold Legacy.Ripemd160.block_size_src Legacy.block_size; decide
+/-! ## src/blake2b.rs, src/blake2s.rs — the legacy BLAKE2 objects -/
+
+/-! ### `Blake2b` (src/blake2b.rs) -/
+
+/-- `Blake2b::new(outlen)`: the context, `computed = false`, an all-zero key array, `keylen = 0` -/
+theorem Blake2b.new_src_eq_model (outlen : Nat) :
+    (Blake2b.new_src outlen).map B2b.abs = Impl.Digest.Blake2.new Impl.Blake2.b outlen := B2b.new_src_eq outlen
+theorem Blake2b.new_src_inv (outlen : Nat) (s : Blake2b.Obj) (h : Blake2b.new_src outlen = some s) : B2b.Inv s :=
+  B2b.new_src_inv outlen s h
+
+/-- `Blake2b::new_keyed(outlen, key)`: `assert!(key.len() <= 64)`, the keyed context, the key stored at the front of a zeroed
+    array (a copy that cannot fail once the context accepted the key), `keylen` -/
+theorem Blake2b.new_keyed_src_eq_model (outlen : Nat) (key : Bytes) :
+    (Blake2b.new_keyed_src outlen key).map B2b.abs = Impl.Digest.Blake2.new_keyed Impl.Blake2.b bKeyAssert outlen key :=
+  B2b.new_keyed_src_eq outlen key
+theorem Blake2b.new_keyed_src_inv (outlen : Nat) (key : Bytes) (s : Blake2b.Obj)
+    (h : Blake2b.new_keyed_src outlen key = some s) : B2b.Inv s := B2b.new_keyed_src_inv outlen key s h
+
+/-- `update`: `assert!(!self.computed)`, `ctx.update_mut` -/
+theorem Blake2b.update_src_eq_model (s : Blake2b.Obj) (input : Bytes) :
+    (Blake2b.update_src s input).map B2b.abs = Impl.Digest.Blake2.update Impl.Blake2.b (B2b.abs s) input :=
+  B2b.update_src_eq s input
+theorem Blake2b.update_src_inv (s s' : Blake2b.Obj) (input : Bytes) (hi : B2b.Inv s)
+    (h : Blake2b.update_src s input = some s') : B2b.Inv s' := B2b.update_src_inv s s' input hi h
+
+/-- `finalize(slice)`: `assert!(!self.computed)`, `ctx.finalize_reset_at(slice)`, `computed = true` -/
+theorem Blake2b.finalize_src_eq_model (s : Blake2b.Obj) (slice : Bytes) :
+    (Blake2b.finalize_src s slice).map (fun p => (B2b.abs p.1, p.2))
+      = Impl.Digest.Blake2.finalize Impl.Blake2.b (B2b.abs s) slice.length := B2b.finalize_src_eq s slice
+theorem Blake2b.finalize_src_inv (s s' : Blake2b.Obj) (slice out : Bytes) (hi : B2b.Inv s)
+    (h : Blake2b.finalize_src s slice = some (s', out)) : B2b.Inv s' := B2b.finalize_src_inv s s' slice out hi h
+
+/-- `reset()`: a keyed object (`keylen > 0`) is re-keyed with the RETAINED key `key[..keylen]`, an unkeyed one is reset;
+    `computed = false` in both branches — the model of the tree as it is (`codeVariant = .repaired`) -/
+theorem Blake2b.reset_src_eq_model (s : Blake2b.Obj) (hi : B2b.Inv s) :
+    (Blake2b.reset_src s).map B2b.abs = Impl.Digest.Blake2.reset codeVariant Impl.Blake2.b (B2b.abs s) :=
+  B2b.reset_src_eq s hi
+theorem Blake2b.reset_src_inv (s s' : Blake2b.Obj) (hi : B2b.Inv s) (h : Blake2b.reset_src s = some s') : B2b.Inv s' :=
+  B2b.reset_src_inv s s' hi h
+
+/-- `reset_with_key(key)`: `ctx.reset_with_key` (which refuses over-long keys, so the copy below cannot fail), the key array
+    zeroed and re-filled, `keylen`, `computed = false` -/
+theorem Blake2b.reset_with_key_src_eq_model (s : Blake2b.Obj) (key : Bytes) :
+    (Blake2b.reset_with_key_src s key).map B2b.abs = Impl.Digest.Blake2.reset_with_key Impl.Blake2.b (B2b.abs s) key :=
+  B2b.reset_with_key_src_eq s key
+theorem Blake2b.reset_with_key_src_inv (s s' : Blake2b.Obj) (key : Bytes)
+    (h : Blake2b.reset_with_key_src s key = some s') : B2b.Inv s' := B2b.reset_with_key_src_inv s s' key h
+
+/-- the static one-shot `Blake2b::blake2b(out, input, key)`: keyed iff `!key.is_empty()`; the new contents of `out` -/
+theorem Blake2b.blake2b_src_eq_model (out input key : Bytes) :
+    Blake2b.blake2b_src out input key = Impl.Digest.Blake2.oneShot Impl.Blake2.b bKeyAssert out.length input key :=
+  B2b.blake2b_src_eq out input key
+
+/-- `impl Digest for Blake2b` = the dictionary `blake2bDigest codeVariant` on the abstraction -/
+theorem Blake2b.Digest.input_src_eq_model (s : Blake2b.Obj) (msg : Bytes) :
+    (Blake2b.Digest.input_src s msg).map B2b.abs = (blake2bDigest codeVariant).input (B2b.abs s) msg :=
+  B2b.digest_input_src_eq s msg
+theorem Blake2b.Digest.reset_src_eq_model (s : Blake2b.Obj) (hi : B2b.Inv s) :
+    (Blake2b.Digest.reset_src s).map B2b.abs = (blake2bDigest codeVariant).reset (B2b.abs s) := B2b.digest_reset_src_eq s hi
+theorem Blake2b.Digest.result_src_eq_model (s : Blake2b.Obj) (out : Bytes) :
+    (Blake2b.Digest.result_src s out).map (fun p => (B2b.abs p.1, p.2))
+      = (blake2bDigest codeVariant).result (B2b.abs s) out.length := B2b.digest_result_src_eq s out
+theorem Blake2b.Digest.output_bits_src_eq_model (s : Blake2b.Obj) :
+    Blake2b.Digest.output_bits_src s = (blake2bDigest codeVariant).output_bits (B2b.abs s) := rfl
+theorem Blake2b.Digest.block_size_src_eq_model (s : Blake2b.Obj) :
+    Blake2b.Digest.block_size_src s = (blake2bDigest codeVariant).block_size (B2b.abs s) := rfl
+
+/-- `impl Mac for Blake2b` = the dictionary `blake2bMac codeVariant` on the abstraction; `result()` returns a `MacResult`
+    whose `code` is the model's byte string -/
+theorem Blake2b.Mac.input_src_eq_model (s : Blake2b.Obj) (data : Bytes) :
+    (Blake2b.Mac.input_src s data).map B2b.abs = (blake2bMac codeVariant).input (B2b.abs s) data := B2b.mac_input_src_eq s data
+theorem Blake2b.Mac.reset_src_eq_model (s : Blake2b.Obj) (hi : B2b.Inv s) :
+    (Blake2b.Mac.reset_src s).map B2b.abs = (blake2bMac codeVariant).reset (B2b.abs s) := B2b.mac_reset_src_eq s hi
+theorem Blake2b.Mac.raw_result_src_eq_model (s : Blake2b.Obj) (output : Bytes) :
+    (Blake2b.Mac.raw_result_src s output).map (fun p => (B2b.abs p.1, p.2))
+      = (blake2bMac codeVariant).raw_result (B2b.abs s) output.length := B2b.mac_raw_result_src_eq s output
+theorem Blake2b.Mac.result_src_eq_model (s : Blake2b.Obj) :
+    (Blake2b.Mac.result_src s).map (fun p => (B2b.abs p.1, p.2.code)) = (blake2bMac codeVariant).result (B2b.abs s) :=
+  B2b.mac_result_src_eq s
+theorem Blake2b.Mac.output_bytes_src_eq_model (s : Blake2b.Obj) :
+    Blake2b.Mac.output_bytes_src s = (blake2bMac codeVariant).output_bytes (B2b.abs s) := rfl
+
+/-- the invariant is inhabited by a keyed object that went through an input (hypothesis check, a test) -/
+example : ∀ s s', Blake2b.new_keyed_src 32 [1, 2, 3] = some s → Blake2b.update_src s [7] = some s' → B2b.Inv s' :=
+  fun s s' h1 h2 => B2b.update_src_inv s s' [7] (B2b.new_keyed_src_inv 32 [1, 2, 3] s h1) h2
+example : ((Blake2b.new_keyed_src 32 [1, 2, 3]).bind (fun s => Blake2b.update_src s [7])).isSome = true := by decide +kernel
+
+/-! ### `Blake2s` (src/blake2s.rs) -/
+
+/-- `Blake2s::new(outlen)`: the context, `computed = false`, an all-zero key array (`[u8; 32]`), `keylen = 0` -/
+theorem Blake2s.new_src_eq_model (outlen : Nat) :
+    (Blake2s.new_src outlen).map B2s.abs = Impl.Digest.Blake2.new Impl.Blake2.s outlen := B2s.new_src_eq outlen
+theorem Blake2s.new_src_inv (outlen : Nat) (s : Blake2s.Obj) (h : Blake2s.new_src outlen = some s) : B2s.Inv s :=
+  B2s.new_src_inv outlen s h
+
+/-- `Blake2s::new_keyed(outlen, key)`: `assert!(key.len() <= 64)`, the keyed context, the key stored at the front of a zeroed
+    array (a copy that cannot fail once the context accepted the key), `keylen` -/
+theorem Blake2s.new_keyed_src_eq_model (outlen : Nat) (key : Bytes) :
+    (Blake2s.new_keyed_src outlen key).map B2s.abs = Impl.Digest.Blake2.new_keyed Impl.Blake2.s sKeyAssert outlen key :=
+  B2s.new_keyed_src_eq outlen key
+theorem Blake2s.new_keyed_src_inv (outlen : Nat) (key : Bytes) (s : Blake2s.Obj)
+    (h : Blake2s.new_keyed_src outlen key = some s) : B2s.Inv s := B2s.new_keyed_src_inv outlen key s h
+
+/-- `update`: `assert!(!self.computed)`, `ctx.update_mut` -/
+theorem Blake2s.update_src_eq_model (s : Blake2s.Obj) (input : Bytes) :
+    (Blake2s.update_src s input).map B2s.abs = Impl.Digest.Blake2.update Impl.Blake2.s (B2s.abs s) input :=
+  B2s.update_src_eq s input
+theorem Blake2s.update_src_inv (s s' : Blake2s.Obj) (input : Bytes) (hi : B2s.Inv s)
+    (h : Blake2s.update_src s input = some s') : B2s.Inv s' := B2s.update_src_inv s s' input hi h
+
+/-- `finalize(slice)`: `assert!(!self.computed)`, `ctx.finalize_reset_at(slice)`, `computed = true` -/
+theorem Blake2s.finalize_src_eq_model (s : Blake2s.Obj) (slice : Bytes) :
+    (Blake2s.finalize_src s slice).map (fun p => (B2s.abs p.1, p.2))
+      = Impl.Digest.Blake2.finalize Impl.Blake2.s (B2s.abs s) slice.length := B2s.finalize_src_eq s slice
+theorem Blake2s.finalize_src_inv (s s' : Blake2s.Obj) (slice out : Bytes) (hi : B2s.Inv s)
+    (h : Blake2s.finalize_src s slice = some (s', out)) : B2s.Inv s' := B2s.finalize_src_inv s s' slice out hi h
+
+/-- `reset()`: a keyed object (`keylen > 0`) is re-keyed with the RETAINED key `key[..keylen]`, an unkeyed one is reset;
+    `computed = false` in both branches — the model of the tree as it is (`codeVariant = .repaired`) -/
+theorem Blake2s.reset_src_eq_model (s : Blake2s.Obj) (hi : B2s.Inv s) :
+    (Blake2s.reset_src s).map B2s.abs = Impl.Digest.Blake2.reset codeVariant Impl.Blake2.s (B2s.abs s) :=
+  B2s.reset_src_eq s hi
+theorem Blake2s.reset_src_inv (s s' : Blake2s.Obj) (hi : B2s.Inv s) (h : Blake2s.reset_src s = some s') : B2s.Inv s' :=
+  B2s.reset_src_inv s s' hi h
+
+/-- `reset_with_key(key)`: `ctx.reset_with_key` (which refuses over-long keys, so the copy below cannot fail), the key array
+    zeroed and re-filled, `keylen`, `computed = false` -/
+theorem Blake2s.reset_with_key_src_eq_model (s : Blake2s.Obj) (key : Bytes) :
+    (Blake2s.reset_with_key_src s key).map B2s.abs = Impl.Digest.Blake2.reset_with_key Impl.Blake2.s (B2s.abs s) key :=
+  B2s.reset_with_key_src_eq s key
+theorem Blake2s.reset_with_key_src_inv (s s' : Blake2s.Obj) (key : Bytes)
+    (h : Blake2s.reset_with_key_src s key = some s') : B2s.Inv s' := B2s.reset_with_key_src_inv s s' key h
+
+/-- the static one-shot `Blake2s::blake2s(out, input, key)`: keyed iff `!key.is_empty()`; the new contents of `out` -/
+theorem Blake2s.blake2s_src_eq_model (out input key : Bytes) :
+    Blake2s.blake2s_src out input key = Impl.Digest.Blake2.oneShot Impl.Blake2.s sKeyAssert out.length input key :=
+  B2s.blake2s_src_eq out input key
+
+/-- `impl Digest for Blake2s` = the dictionary `blake2sDigest codeVariant` on the abstraction -/
+theorem Blake2s.Digest.input_src_eq_model (s : Blake2s.Obj) (msg : Bytes) :
+    (Blake2s.Digest.input_src s msg).map B2s.abs = (blake2sDigest codeVariant).input (B2s.abs s) msg :=
+  B2s.digest_input_src_eq s msg
+theorem Blake2s.Digest.reset_src_eq_model (s : Blake2s.Obj) (hi : B2s.Inv s) :
+    (Blake2s.Digest.reset_src s).map B2s.abs = (blake2sDigest codeVariant).reset (B2s.abs s) := B2s.digest_reset_src_eq s hi
+theorem Blake2s.Digest.result_src_eq_model (s : Blake2s.Obj) (out : Bytes) :
+    (Blake2s.Digest.result_src s out).map (fun p => (B2s.abs p.1, p.2))
+      = (blake2sDigest codeVariant).result (B2s.abs s) out.length := B2s.digest_result_src_eq s out
+theorem Blake2s.Digest.output_bits_src_eq_model (s : Blake2s.Obj) :
+    Blake2s.Digest.output_bits_src s = (blake2sDigest codeVariant).output_bits (B2s.abs s) := rfl
+theorem Blake2s.Digest.block_size_src_eq_model (s : Blake2s.Obj) :
+    Blake2s.Digest.block_size_src s = (blake2sDigest codeVariant).block_size (B2s.abs s) := rfl
+
+/-- `impl Mac for Blake2s` = the dictionary `blake2sMac codeVariant` on the abstraction; `result()` returns a `MacResult`
+    whose `code` is the model's byte string -/
+theorem Blake2s.Mac.input_src_eq_model (s : Blake2s.Obj) (data : Bytes) :
+    (Blake2s.Mac.input_src s data).map B2s.abs = (blake2sMac codeVariant).input (B2s.abs s) data := B2s.mac_input_src_eq s data
+theorem Blake2s.Mac.reset_src_eq_model (s : Blake2s.Obj) (hi : B2s.Inv s) :
+    (Blake2s.Mac.reset_src s).map B2s.abs = (blake2sMac codeVariant).reset (B2s.abs s) := B2s.mac_reset_src_eq s hi
+theorem Blake2s.Mac.raw_result_src_eq_model (s : Blake2s.Obj) (output : Bytes) :
+    (Blake2s.Mac.raw_result_src s output).map (fun p => (B2s.abs p.1, p.2))
+      = (blake2sMac codeVariant).raw_result (B2s.abs s) output.length := B2s.mac_raw_result_src_eq s output
+theorem Blake2s.Mac.result_src_eq_model (s : Blake2s.Obj) :
+    (Blake2s.Mac.result_src s).map (fun p => (B2s.abs p.1, p.2.code)) = (blake2sMac codeVariant).result (B2s.abs s) :=
+  B2s.mac_result_src_eq s
+theorem Blake2s.Mac.output_bytes_src_eq_model (s : Blake2s.Obj) :
+    Blake2s.Mac.output_bytes_src s = (blake2sMac codeVariant).output_bytes (B2s.abs s) := rfl
+
+/-- the invariant is inhabited by a keyed object that went through an input (hypothesis check, a test) -/
+example : ∀ s s', Blake2s.new_keyed_src 16 [1, 2, 3] = some s → Blake2s.update_src s [7] = some s' → B2s.Inv s' :=
+  fun s s' h1 h2 => B2s.update_src_inv s s' [7] (B2s.new_keyed_src_inv 16 [1, 2, 3] s h1) h2
+example : ((Blake2s.new_keyed_src 16 [1, 2, 3]).bind (fun s => Blake2s.update_src s [7])).isSome = true := by decide +kernel
+
+/-! ## src/hashing/sha1.rs — `digest_block(s)`, `mk_result`, `Context` -/
+
+/-- `digest_block`: `assert_eq!(block.len(), 64)`, sixteen big-endian words, the compression core (KernelTieSha1) -/
+theorem HSha1.digest_block_src_eq_model (state : Spec.Sha1.Hash) (block : Bytes) :
+    HSha1.digest_block_src state block = Impl.Sha1.digest_block state block := HS1.digest_block_src_eq state block
+/-- `digest_blocks`: the `for b in block.chunks(64)` loop, for every number of chunks -/
+theorem HSha1.digest_blocks_loop_src_eq_model (l : List Bytes) (state : Spec.Sha1.Hash) :
+    HSha1.digest_blocks_loop1_src l state = Impl.Sha1.digest_blocks_go state l := HS1.digest_blocks_loop_eq l state
+theorem HSha1.digest_blocks_src_eq_model (state : Spec.Sha1.Hash) (block : Bytes) :
+    HSha1.digest_blocks_src state block = Impl.Sha1.digest_blocks state block := HS1.digest_blocks_src_eq state block
+/-- `mk_result(st, rs)`: `standard_padding(8, …)` with the closure on `st.h`, the length field
+    `(processed_bytes << 3).to_be_bytes()` through `next::<8>()`, the last block, the five big-endian words stored at
+    0, 4, 8, 12, 16 — they overwrite all of `rs: &mut [u8; 20]` (`hr` is that typing fact) -/
+theorem HSha1.mk_result_src_eq_model (st : Impl.Sha1.Context) (rs : Bytes) (hr : rs.length = 20) :
+    HSha1.mk_result_src st rs = Impl.Sha1.Context.mk_result st := HS1.mk_result_src_eq st rs hr
+example : (zeros 20).length = 20 := by decide
+theorem HSha1.Context.new_src_eq_model : HSha1.Context.new_src = Impl.Sha1.Context.new := rfl
+/-- `update_mut`: the byte counter (`+=`, wrapping as in the model), then `buffer.input` with the closure on `self.h` -/
+theorem HSha1.Context.update_mut_src_eq_model (self : Impl.Sha1.Context) (input : Bytes) :
+    HSha1.Context.update_mut_src self input = Impl.Sha1.Context.update_mut self input := HS1.update_mut_src_eq self input
+theorem HSha1.Context.update_src_eq_model (self : Impl.Sha1.Context) (input : Bytes) :
+    HSha1.Context.update_src self input = Impl.Sha1.Context.update self input := HS1.update_src_eq self input
+/-- `reset`: counter, state words AND buffer index -/
+theorem HSha1.Context.reset_src_eq_model (self : Impl.Sha1.Context) :
+    HSha1.Context.reset_src self = Impl.Sha1.Context.reset self := rfl
+theorem HSha1.Context.finalize_src_eq_model (self : Impl.Sha1.Context) :
+    HSha1.Context.finalize_src self = Impl.Sha1.Context.finalize self := HS1.finalize_src_eq self
+/-- `finalize_reset`: `mk_result` then `reset` (which also clears the byte counter) -/
+theorem HSha1.Context.finalize_reset_src_eq_model (self : Impl.Sha1.Context) :
+    HSha1.Context.finalize_reset_src self = Impl.Sha1.Context.finalize_reset self := HS1.finalize_reset_src_eq self
+theorem HSha1.Sha1.new_src_eq_model : HSha1.Sha1.new_src = Impl.Sha1.Context.new := rfl
+
+/-! ## src/hashing/ripemd160.rs — `process_msg_blocks`, `Context` -/
+
+theorem HRipemd160.process_msg_blocks_loop_src_eq_model (l : List Bytes) (h : Spec.Ripemd160.Hash) :
+    HRipemd160.process_msg_blocks_loop1_src l h = Impl.Ripemd160.process_msg_blocks_go h l := HRmd.blocks_loop_eq l h
+theorem HRipemd160.process_msg_blocks_src_eq_model (data : Bytes) (h : Spec.Ripemd160.Hash) :
+    HRipemd160.process_msg_blocks_src data h = Impl.Ripemd160.process_msg_blocks data h := HRmd.process_msg_blocks_src_eq data h
+theorem HRipemd160.Context.new_src_eq_model : HRipemd160.Context.new_src = Impl.Ripemd160.Context.new := rfl
+theorem HRipemd160.Context.update_mut_src_eq_model (self : Impl.Ripemd160.Context) (msg : Bytes) :
+    HRipemd160.Context.update_mut_src self msg = Impl.Ripemd160.Context.update_mut self msg := HRmd.update_mut_src_eq self msg
+theorem HRipemd160.Context.update_src_eq_model (self : Impl.Ripemd160.Context) (input : Bytes) :
+    HRipemd160.Context.update_src self input = Impl.Ripemd160.Context.update self input := HRmd.update_src_eq self input
+theorem HRipemd160.Context.reset_src_eq_model (self : Impl.Ripemd160.Context) :
+    HRipemd160.Context.reset_src self = Impl.Ripemd160.Context.reset self := rfl
+/-- `finalize_reset`: padding, the bit length as TWO little-endian u32 written through `next::<4>()`:
+    low word `(processed_bytes << 3) as u32`, high word `(processed_bytes >> 29) as u32` (the carry of the `<< 3` into the high
+    word), the last block, five little-endian output words, `reset` -/
+theorem HRipemd160.Context.finalize_reset_src_eq_model (self : Impl.Ripemd160.Context) :
+    HRipemd160.Context.finalize_reset_src self = Impl.Ripemd160.Context.finalize_reset self := HRmd.finalize_reset_src_eq self
+theorem HRipemd160.Context.finalize_src_eq_model (self : Impl.Ripemd160.Context) :
+    HRipemd160.Context.finalize_src self = Impl.Ripemd160.Context.finalize self := HRmd.finalize_src_eq self
+theorem HRipemd160.Ripemd160.new_src_eq_model : HRipemd160.Ripemd160.new_src = Impl.Ripemd160.Context.new := rfl
+
+/-! ## src/hashing/sha2/mod.rs — the six `digest!` invocations above `Engine256` / `Engine512` -/
+
+/-! #### `digest!(512 Sha512, Context512, …)` -/
+theorem HSha2.Context512.new_src_eq_model : HSha2.Context512.new_src = Impl.Sha2.Ctx512.new Impl.Sha2.Sha512 := rfl
+theorem HSha2.Context512.update_mut_src_eq_model (self : Impl.Sha2.Ctx512) (input : Bytes) :
+    HSha2.Context512.update_mut_src self input = Impl.Sha2.Ctx512.update_mut self input := HS2.Context512.update_mut_src_eq self input
+theorem HSha2.Context512.update_src_eq_model (self : Impl.Sha2.Ctx512) (input : Bytes) :
+    HSha2.Context512.update_src self input = Impl.Sha2.Ctx512.update self input := HS2.Context512.update_src_eq self input
+theorem HSha2.Context512.reset_src_eq_model (self : Impl.Sha2.Ctx512) : HSha2.Context512.reset_src self = Impl.Sha2.Ctx512.reset Impl.Sha2.Sha512 self := rfl
+theorem HSha2.Context512.finalize_src_eq_model (self : Impl.Sha2.Ctx512) :
+    HSha2.Context512.finalize_src self = Impl.Sha2.Ctx512.finalize Impl.Sha2.Sha512 self := HS2.Context512.finalize_src_eq self
+theorem HSha2.Context512.finalize_reset_src_eq_model (self : Impl.Sha2.Ctx512) :
+    HSha2.Context512.finalize_reset_src self = Impl.Sha2.Ctx512.finalize_reset Impl.Sha2.Sha512 self := HS2.Context512.finalize_reset_src_eq self
+theorem HSha2.Sha512.new_src_eq_model : HSha2.Sha512.new_src = Impl.Sha2.Ctx512.new Impl.Sha2.Sha512 := rfl
+
+/-! #### `digest!(512 Sha384, Context384, …)` -/
+theorem HSha2.Context384.new_src_eq_model : HSha2.Context384.new_src = Impl.Sha2.Ctx512.new Impl.Sha2.Sha384 := rfl
+theorem HSha2.Context384.update_mut_src_eq_model (self : Impl.Sha2.Ctx512) (input : Bytes) :
+    HSha2.Context384.update_mut_src self input = Impl.Sha2.Ctx512.update_mut self input := HS2.Context384.update_mut_src_eq self input
+theorem HSha2.Context384.update_src_eq_model (self : Impl.Sha2.Ctx512) (input : Bytes) :
+    HSha2.Context384.update_src self input = Impl.Sha2.Ctx512.update self input := HS2.Context384.update_src_eq self input
+theorem HSha2.Context384.reset_src_eq_model (self : Impl.Sha2.Ctx512) : HSha2.Context384.reset_src self = Impl.Sha2.Ctx512.reset Impl.Sha2.Sha384 self := rfl
+theorem HSha2.Context384.finalize_src_eq_model (self : Impl.Sha2.Ctx512) :
+    HSha2.Context384.finalize_src self = Impl.Sha2.Ctx512.finalize Impl.Sha2.Sha384 self := HS2.Context384.finalize_src_eq self
+theorem HSha2.Context384.finalize_reset_src_eq_model (self : Impl.Sha2.Ctx512) :
+    HSha2.Context384.finalize_reset_src self = Impl.Sha2.Ctx512.finalize_reset Impl.Sha2.Sha384 self := HS2.Context384.finalize_reset_src_eq self
+theorem HSha2.Sha384.new_src_eq_model : HSha2.Sha384.new_src = Impl.Sha2.Ctx512.new Impl.Sha2.Sha384 := rfl
+
+/-! #### `digest!(512 Sha512Trunc256, Context512_256, …)` -/
+theorem HSha2.Context512_256.new_src_eq_model : HSha2.Context512_256.new_src = Impl.Sha2.Ctx512.new Impl.Sha2.Sha512Trunc256 := rfl
+theorem HSha2.Context512_256.update_mut_src_eq_model (self : Impl.Sha2.Ctx512) (input : Bytes) :
+    HSha2.Context512_256.update_mut_src self input = Impl.Sha2.Ctx512.update_mut self input := HS2.Context512_256.update_mut_src_eq self input
+theorem HSha2.Context512_256.update_src_eq_model (self : Impl.Sha2.Ctx512) (input : Bytes) :
+    HSha2.Context512_256.update_src self input = Impl.Sha2.Ctx512.update self input := HS2.Context512_256.update_src_eq self input
+theorem HSha2.Context512_256.reset_src_eq_model (self : Impl.Sha2.Ctx512) : HSha2.Context512_256.reset_src self = Impl.Sha2.Ctx512.reset Impl.Sha2.Sha512Trunc256 self := rfl
+theorem HSha2.Context512_256.finalize_src_eq_model (self : Impl.Sha2.Ctx512) :
+    HSha2.Context512_256.finalize_src self = Impl.Sha2.Ctx512.finalize Impl.Sha2.Sha512Trunc256 self := HS2.Context512_256.finalize_src_eq self
+theorem HSha2.Context512_256.finalize_reset_src_eq_model (self : Impl.Sha2.Ctx512) :
+    HSha2.Context512_256.finalize_reset_src self = Impl.Sha2.Ctx512.finalize_reset Impl.Sha2.Sha512Trunc256 self := HS2.Context512_256.finalize_reset_src_eq self
+theorem HSha2.Sha512Trunc256.new_src_eq_model : HSha2.Sha512Trunc256.new_src = Impl.Sha2.Ctx512.new Impl.Sha2.Sha512Trunc256 := rfl
+
+/-! #### `digest!(512 Sha512Trunc224, Context512_224, …)` -/
+theorem HSha2.Context512_224.new_src_eq_model : HSha2.Context512_224.new_src = Impl.Sha2.Ctx512.new Impl.Sha2.Sha512Trunc224 := rfl
+theorem HSha2.Context512_224.update_mut_src_eq_model (self : Impl.Sha2.Ctx512) (input : Bytes) :
+    HSha2.Context512_224.update_mut_src self input = Impl.Sha2.Ctx512.update_mut self input := HS2.Context512_224.update_mut_src_eq self input
+theorem HSha2.Context512_224.update_src_eq_model (self : Impl.Sha2.Ctx512) (input : Bytes) :
+    HSha2.Context512_224.update_src self input = Impl.Sha2.Ctx512.update self input := HS2.Context512_224.update_src_eq self input
+theorem HSha2.Context512_224.reset_src_eq_model (self : Impl.Sha2.Ctx512) : HSha2.Context512_224.reset_src self = Impl.Sha2.Ctx512.reset Impl.Sha2.Sha512Trunc224 self := rfl
+theorem HSha2.Context512_224.finalize_src_eq_model (self : Impl.Sha2.Ctx512) :
+    HSha2.Context512_224.finalize_src self = Impl.Sha2.Ctx512.finalize Impl.Sha2.Sha512Trunc224 self := HS2.Context512_224.finalize_src_eq self
+theorem HSha2.Context512_224.finalize_reset_src_eq_model (self : Impl.Sha2.Ctx512) :
+    HSha2.Context512_224.finalize_reset_src self = Impl.Sha2.Ctx512.finalize_reset Impl.Sha2.Sha512Trunc224 self := HS2.Context512_224.finalize_reset_src_eq self
+theorem HSha2.Sha512Trunc224.new_src_eq_model : HSha2.Sha512Trunc224.new_src = Impl.Sha2.Ctx512.new Impl.Sha2.Sha512Trunc224 := rfl
+
+/-! #### `digest!(256 Sha256, Context256, …)` -/
+theorem HSha2.Context256.new_src_eq_model : HSha2.Context256.new_src = Impl.Sha2.Ctx256.new Impl.Sha2.Sha256 := rfl
+theorem HSha2.Context256.update_mut_src_eq_model (self : Impl.Sha2.Ctx256) (input : Bytes) :
+    HSha2.Context256.update_mut_src self input = Impl.Sha2.Ctx256.update_mut self input := HS2.Context256.update_mut_src_eq self input
+theorem HSha2.Context256.update_src_eq_model (self : Impl.Sha2.Ctx256) (input : Bytes) :
+    HSha2.Context256.update_src self input = Impl.Sha2.Ctx256.update self input := HS2.Context256.update_src_eq self input
+theorem HSha2.Context256.reset_src_eq_model (self : Impl.Sha2.Ctx256) : HSha2.Context256.reset_src self = Impl.Sha2.Ctx256.reset Impl.Sha2.Sha256 self := rfl
+theorem HSha2.Context256.finalize_src_eq_model (self : Impl.Sha2.Ctx256) :
+    HSha2.Context256.finalize_src self = Impl.Sha2.Ctx256.finalize Impl.Sha2.Sha256 self := HS2.Context256.finalize_src_eq self
+theorem HSha2.Context256.finalize_reset_src_eq_model (self : Impl.Sha2.Ctx256) :
+    HSha2.Context256.finalize_reset_src self = Impl.Sha2.Ctx256.finalize_reset Impl.Sha2.Sha256 self := HS2.Context256.finalize_reset_src_eq self
+theorem HSha2.Sha256.new_src_eq_model : HSha2.Sha256.new_src = Impl.Sha2.Ctx256.new Impl.Sha2.Sha256 := rfl
+
+/-! #### `digest!(256 Sha224, Context224, …)` -/
+theorem HSha2.Context224.new_src_eq_model : HSha2.Context224.new_src = Impl.Sha2.Ctx256.new Impl.Sha2.Sha224 := rfl
+theorem HSha2.Context224.update_mut_src_eq_model (self : Impl.Sha2.Ctx256) (input : Bytes) :
+    HSha2.Context224.update_mut_src self input = Impl.Sha2.Ctx256.update_mut self input := HS2.Context224.update_mut_src_eq self input
+theorem HSha2.Context224.update_src_eq_model (self : Impl.Sha2.Ctx256) (input : Bytes) :
+    HSha2.Context224.update_src self input = Impl.Sha2.Ctx256.update self input := HS2.Context224.update_src_eq self input
+theorem HSha2.Context224.reset_src_eq_model (self : Impl.Sha2.Ctx256) : HSha2.Context224.reset_src self = Impl.Sha2.Ctx256.reset Impl.Sha2.Sha224 self := rfl
+theorem HSha2.Context224.finalize_src_eq_model (self : Impl.Sha2.Ctx256) :
+    HSha2.Context224.finalize_src self = Impl.Sha2.Ctx256.finalize Impl.Sha2.Sha224 self := HS2.Context224.finalize_src_eq self
+theorem HSha2.Context224.finalize_reset_src_eq_model (self : Impl.Sha2.Ctx256) :
+    HSha2.Context224.finalize_reset_src self = Impl.Sha2.Ctx256.finalize_reset Impl.Sha2.Sha224 self := HS2.Context224.finalize_reset_src_eq self
+theorem HSha2.Sha224.new_src_eq_model : HSha2.Sha224.new_src = Impl.Sha2.Ctx256.new Impl.Sha2.Sha224 := rfl
+
+/-! ## src/hashing/mod.rs — the one-shot functions `X::new().update(input).finalize()` -/
+
+theorem Hashing.sha1_src_eq_model (input : Bytes) : Hashing.sha1_src input = Impl.Sha1.sha1 input := HS1.oneshot_eq input
+theorem Hashing.ripemd160_src_eq_model (input : Bytes) : Hashing.ripemd160_src input = Impl.Ripemd160.ripemd160 input :=
+  HRmd.oneshot_eq input
+theorem Hashing.sha224_src_eq_model (input : Bytes) : Hashing.sha224_src input = Impl.Sha2.sha224? input := HS2.sha224_oneshot input
+theorem Hashing.sha256_src_eq_model (input : Bytes) : Hashing.sha256_src input = Impl.Sha2.sha256? input := HS2.sha256_oneshot input
+theorem Hashing.sha384_src_eq_model (input : Bytes) : Hashing.sha384_src input = Impl.Sha2.sha384? input := HS2.sha384_oneshot input
+theorem Hashing.sha512_src_eq_model (input : Bytes) : Hashing.sha512_src input = Impl.Sha2.sha512? input := HS2.sha512_oneshot input
+theorem Hashing.sha3_224_src_eq_model (input : Bytes) : Hashing.sha3_224_src input = Impl.Sha3.sha3_224 input := HOne.sha3_224_oneshot input
+theorem Hashing.sha3_256_src_eq_model (input : Bytes) : Hashing.sha3_256_src input = Impl.Sha3.sha3_256 input := HOne.sha3_256_oneshot input
+theorem Hashing.sha3_384_src_eq_model (input : Bytes) : Hashing.sha3_384_src input = Impl.Sha3.sha3_384 input := HOne.sha3_384_oneshot input
+theorem Hashing.sha3_512_src_eq_model (input : Bytes) : Hashing.sha3_512_src input = Impl.Sha3.sha3_512 input := HOne.sha3_512_oneshot input
+theorem Hashing.keccak224_src_eq_model (input : Bytes) : Hashing.keccak224_src input = Impl.Sha3.keccak224 input := HOne.keccak224_oneshot input
+theorem Hashing.keccak256_src_eq_model (input : Bytes) : Hashing.keccak256_src input = Impl.Sha3.keccak256 input := HOne.keccak256_oneshot input
+theorem Hashing.keccak384_src_eq_model (input : Bytes) : Hashing.keccak384_src input = Impl.Sha3.keccak384 input := HOne.keccak384_oneshot input
+theorem Hashing.keccak512_src_eq_model (input : Bytes) : Hashing.keccak512_src input = Impl.Sha3.keccak512 input := HOne.keccak512_oneshot input
+theorem Hashing.blake2b_224_src_eq_model (input : Bytes) :
+    Hashing.blake2b_224_src input = Impl.Blake2.hashing_blake2 Impl.Blake2.b Impl.Digest.blakeProfile 224 input :=
+  HOne.blake2b_224_oneshot input
+theorem Hashing.blake2b_256_src_eq_model (input : Bytes) :
+    Hashing.blake2b_256_src input = Impl.Blake2.hashing_blake2 Impl.Blake2.b Impl.Digest.blakeProfile 256 input :=
+  HOne.blake2b_256_oneshot input
+theorem Hashing.blake2b_384_src_eq_model (input : Bytes) :
+    Hashing.blake2b_384_src input = Impl.Blake2.hashing_blake2 Impl.Blake2.b Impl.Digest.blakeProfile 384 input :=
+  HOne.blake2b_384_oneshot input
+theorem Hashing.blake2b_512_src_eq_model (input : Bytes) :
+    Hashing.blake2b_512_src input = Impl.Blake2.hashing_blake2 Impl.Blake2.b Impl.Digest.blakeProfile 512 input :=
+  HOne.blake2b_512_oneshot input
+theorem Hashing.blake2s_224_src_eq_model (input : Bytes) :
+    Hashing.blake2s_224_src input = Impl.Blake2.hashing_blake2 Impl.Blake2.s Impl.Digest.blakeProfile 224 input :=
+  HOne.blake2s_224_oneshot input
+theorem Hashing.blake2s_256_src_eq_model (input : Bytes) :
+    Hashing.blake2s_256_src input = Impl.Blake2.hashing_blake2 Impl.Blake2.s Impl.Digest.blakeProfile 256 input :=
+  HOne.blake2s_256_oneshot input
+
+/-! ## End to end: what the SOURCE of the one-shot functions computes is the standard function
+
+  `Hashing.<f>_src` is generated from src/hashing/mod.rs and calls the functions generated from src/hashing/sha1.rs,
+  ripemd160.rs, sha2/mod.rs (resp. the model contexts of SHA-3 / Keccak / BLAKE2, tied by the sponge / BLAKE2 glue ties); the tie
+  theorems above and the C01 theorems of the hand models compose (the only hypotheses are the standards' own length domains). -/
+
+theorem Hashing.sha1_src_is_fips (input : Bytes) (h : input.length < 2 ^ 61) :
+    Hashing.sha1_src input = some (Spec.Sha1.sha1 input) := by
+  rw [Hashing.sha1_src_eq_model]; exact Cx.Props.C01.Sha1.sha1_is_fips input h
+theorem Hashing.ripemd160_src_is_paper (input : Bytes) (h : input.length < 2 ^ 61) :
+    Hashing.ripemd160_src input = some (Spec.Ripemd160.ripemd160 input) := by
+  rw [Hashing.ripemd160_src_eq_model]; exact Cx.Props.C01.Ripemd160.ripemd160_is_paper input h
+theorem Hashing.sha224_src_is_fips (input : Bytes) (h : input.length < 2 ^ 61) :
+    Hashing.sha224_src input = some (Spec.Sha2.sha224 input) := by
+  rw [Hashing.sha224_src_eq_model]; exact Cx.Props.C01.Sha2.sha224_eq_spec input h
+theorem Hashing.sha256_src_is_fips (input : Bytes) (h : input.length < 2 ^ 61) :
+    Hashing.sha256_src input = some (Spec.Sha2.sha256 input) := by
+  rw [Hashing.sha256_src_eq_model]; exact Cx.Props.C01.Sha2.sha256_eq_spec input h
+theorem Hashing.sha384_src_is_fips (input : Bytes) (h : input.length < 2 ^ 125) :
+    Hashing.sha384_src input = some (Spec.Sha2.sha384 input) := by
+  rw [Hashing.sha384_src_eq_model]; exact Cx.Props.C01.Sha2.sha384_eq_spec input h
+theorem Hashing.sha512_src_is_fips (input : Bytes) (h : input.length < 2 ^ 125) :
+    Hashing.sha512_src input = some (Spec.Sha2.sha512 input) := by
+  rw [Hashing.sha512_src_eq_model]; exact Cx.Props.C01.Sha2.sha512_eq_spec input h
+theorem Hashing.sha3_224_src_is_fips (input : Bytes) : Hashing.sha3_224_src input = some (Spec.Keccak.sha3_224 input) := by
+  rw [Hashing.sha3_224_src_eq_model]; exact Cx.Props.C01.sha3_224_eq_spec input
+theorem Hashing.sha3_256_src_is_fips (input : Bytes) : Hashing.sha3_256_src input = some (Spec.Keccak.sha3_256 input) := by
+  rw [Hashing.sha3_256_src_eq_model]; exact Cx.Props.C01.sha3_256_eq_spec input
+theorem Hashing.sha3_384_src_is_fips (input : Bytes) : Hashing.sha3_384_src input = some (Spec.Keccak.sha3_384 input) := by
+  rw [Hashing.sha3_384_src_eq_model]; exact Cx.Props.C01.sha3_384_eq_spec input
+theorem Hashing.sha3_512_src_is_fips (input : Bytes) : Hashing.sha3_512_src input = some (Spec.Keccak.sha3_512 input) := by
+  rw [Hashing.sha3_512_src_eq_model]; exact Cx.Props.C01.sha3_512_eq_spec input
+theorem Hashing.keccak224_src_is_fips (input : Bytes) : Hashing.keccak224_src input = some (Spec.Keccak.keccak224 input) := by
+  rw [Hashing.keccak224_src_eq_model]; exact Cx.Props.C01.keccak224_eq_spec input
+theorem Hashing.keccak256_src_is_fips (input : Bytes) : Hashing.keccak256_src input = some (Spec.Keccak.keccak256 input) := by
+  rw [Hashing.keccak256_src_eq_model]; exact Cx.Props.C01.keccak256_eq_spec input
+theorem Hashing.keccak384_src_is_fips (input : Bytes) : Hashing.keccak384_src input = some (Spec.Keccak.keccak384 input) := by
+  rw [Hashing.keccak384_src_eq_model]; exact Cx.Props.C01.keccak384_eq_spec input
+theorem Hashing.keccak512_src_is_fips (input : Bytes) : Hashing.keccak512_src input = some (Spec.Keccak.keccak512 input) := by
+  rw [Hashing.keccak512_src_eq_model]; exact Cx.Props.C01.keccak512_eq_spec input
+theorem Hashing.blake2b_224_src_is_rfc (input : Bytes) :
+    Hashing.blake2b_224_src input = some (Spec.Blake2.blake2b 28 [] input) := by
+  rw [Hashing.blake2b_224_src_eq_model]; exact Cx.Props.C01.hashing_blake2b_fixed 224 (by decide) input
+theorem Hashing.blake2b_256_src_is_rfc (input : Bytes) :
+    Hashing.blake2b_256_src input = some (Spec.Blake2.blake2b 32 [] input) := by
+  rw [Hashing.blake2b_256_src_eq_model]; exact Cx.Props.C01.hashing_blake2b_fixed 256 (by decide) input
+theorem Hashing.blake2b_384_src_is_rfc (input : Bytes) :
+    Hashing.blake2b_384_src input = some (Spec.Blake2.blake2b 48 [] input) := by
+  rw [Hashing.blake2b_384_src_eq_model]; exact Cx.Props.C01.hashing_blake2b_fixed 384 (by decide) input
+theorem Hashing.blake2b_512_src_is_rfc (input : Bytes) :
+    Hashing.blake2b_512_src input = some (Spec.Blake2.blake2b 64 [] input) := by
+  rw [Hashing.blake2b_512_src_eq_model]; exact Cx.Props.C01.hashing_blake2b_fixed 512 (by decide) input
+theorem Hashing.blake2s_224_src_is_rfc (input : Bytes) :
+    Hashing.blake2s_224_src input = some (Spec.Blake2.blake2s 28 [] input) := by
+  rw [Hashing.blake2s_224_src_eq_model]; exact Cx.Props.C01.hashing_blake2s_fixed 224 (by decide) input
+theorem Hashing.blake2s_256_src_is_rfc (input : Bytes) :
+    Hashing.blake2s_256_src input = some (Spec.Blake2.blake2s 32 [] input) := by
+  rw [Hashing.blake2s_256_src_eq_model]; exact Cx.Props.C01.hashing_blake2s_fixed 256 (by decide) input
+example : ([] : Bytes).length < 2 ^ 61 := by decide
+
 end Cx.Props.C09.GlueTieDigest
